@@ -29,6 +29,7 @@ EXPLANATION = (
     "binary() at prediction aggregates the new frame (known finding shared with C06). R16.6 binary is 1 where the "
     "comparison with the success value holds and 0 elsewhere; Offset.eval returns the stored values unchanged / "
     "broadcasts the constant."
+    " R16.7 no dtype-narrowing store of real-valued blocks. R16.8 T(x, ref) / S(x, omit) code the requested level for every level value (C04's R4.2)."
 )
 ASSUMPTIONS = [
     "np.where(mask, 1, 0) is 1 exactly where mask is true; np.ones(n) * c broadcasts the constant",
@@ -312,7 +313,35 @@ def r16_6(prog, rep):
         "default success is not the first of the sorted unique values")
     pe = prog.fn("transforms.Proportion.eval")
     rets = _rets(pe)
-    obl(rep, pe, pe.node, "R16.6", len(rets) == 1 and unparse(rets[0].value) == "np.vstack([self.successes, self.trials]).T",
+    # two 1-D columns side by side: vstack(...).T, column_stack / stack(axis=1) of the same two attributes in the same order
+    TWO_COLS = {"np.vstack([self.successes, self.trials]).T", "np.vstack((self.successes, self.trials)).T", "np.column_stack([self.successes, self.trials])",
+                "np.column_stack((self.successes, self.trials))", "np.stack([self.successes, self.trials], axis=1)", "np.stack((self.successes, self.trials), axis=1)",
+                "np.array([self.successes, self.trials]).T"}
+    shown = None
+    if len(rets) == 1:
+        # single-use locals of the return expression are read through (rows = (...); return np.concatenate(rows, axis=0).T)
+        import copy as _copy
+        from ..desugar import _Synonyms
+        e = _copy.deepcopy(rets[0].value)
+        for _ in range(3):
+            names = [n for n in ast.walk(e) if isinstance(n, ast.Name) and isinstance(n.ctx, ast.Load)]
+            done = True
+            for n in names:
+                ds_ = [s_ for s_ in walk_local(pe.node) if isinstance(s_, ast.Assign) and len(s_.targets) == 1 and unparse(s_.targets[0]) == n.id]
+                uses_ = [u for u in ast.walk(pe.node) if isinstance(u, ast.Name) and u.id == n.id and isinstance(u.ctx, ast.Load)]
+                if len(ds_) == 1 and len(uses_) == 1:
+                    class _S(ast.NodeTransformer):
+                        def visit_Name(s_, x):
+                            return _copy.deepcopy(ds_[0].value) if x.id == n.id and isinstance(x.ctx, ast.Load) else x
+                    e = _S().visit(e)
+                    done = False
+                    break
+            if done:
+                break
+        e = _Synonyms().visit(e)
+        ast.fix_missing_locations(e)
+        shown = unparse(e)
+    obl(rep, pe, pe.node, "R16.6", shown in TWO_COLS,
         "prop(y, n) -> the two columns successes, trials in that order", unparse(rets[0].value) if rets else "")
     pr = prog.fn("transforms.proportion")
     rets = _rets(pr)
